@@ -141,8 +141,8 @@ theorem poll_ackable {e : End} (ha : e.s.ackable = true) {now : Nat} {e' : End} 
 
 /-! ## What one operation of the monitored end does to the `End` -/
 
-/-- an accepted segment stamps the receive window with the current instant, or (handshake) starts
-the session from scratch with nothing to acknowledge -/
+/-- an accepted segment stamps the receive window with the current instant (data; handshake response
+at the initiator), or (handshake request at the responder) starts the session with nothing to acknowledge -/
 theorem rx_stamps {e e' : End} {data : List Nat} {now : Nat} (hok : e.processIncoming data now = .ok e') :
     e'.s.recv.receivedAt = some now ∨ e'.s.recv.ackLevel = 0 := by
   unfold End.processIncoming at hok
@@ -162,8 +162,7 @@ theorem rx_stamps {e e' : End} {data : List Nat} {now : Nat} (hok : e.processInc
       simp only at h
       unfold Session.processRxSeg at h
       by_cases hhs : hh.hs = true
-      · right
-        simp only [hhs, if_true] at h
+      · simp only [hhs, if_true] at h
         by_cases hi : e.s.initiator = true
         · simp only [hi, if_true] at h
           unfold Session.processRxHandshakeResp at h
@@ -173,7 +172,8 @@ theorem rx_stamps {e e' : End} {data : List Nat} {now : Nat} (hok : e.processInc
             · cases h
             · split at h
               · cases h
-              · have := Except.ok.inj h; rw [← this]; rfl
+              · have := Except.ok.inj h; rw [← this]
+                left; simp only [Session.setup, hi, if_true]
         · simp only [hi, Bool.false_eq_true, if_false] at h
           unfold Session.processRxHandshakeReq at h
           split at h
@@ -187,7 +187,8 @@ theorem rx_stamps {e e' : End} {data : List Nat} {now : Nat} (hok : e.processInc
                 · cases h
                 · split at h
                   · cases h
-                  · have := Except.ok.inj h; rw [← this]; rfl
+                  · have := Except.ok.inj h; rw [← this]
+                    right; simp only [Session.setup, hi, Bool.false_eq_true, if_false]
       · left
         simp only [hhs, Bool.false_eq_true, if_false] at h
         exact (accepted_stamps h).1
@@ -581,7 +582,8 @@ theorem rx_data_effect {e e' : End} {seg : List Nat} {now : Nat}
     e'.s.recv.receivedAt = some now ∧ e'.s.recv.ackLevel = e.s.recv.ackLevel + 1 ∧
     ((ackOf seg = none ∧ e'.s.send = e.s.send) ∨
      (e'.s.send.level = e.s.send.windowSize ∧ e'.s.send.sentAt = none) ∨
-     (e'.s.send.sentAt = some now)) := by
+     (e'.s.send.sentAt = some now ∧ ∃ a, ackOf seg = some a ∧ e.s.send.lastSent ≠ a ∧
+        e'.s.send.level = e.s.send.windowSize - wrapSub e.s.send.lastSent a)) := by
   obtain ⟨h, p, hdec, hhs⟩ := hno
   unfold End.processIncoming at hok
   cases hr : e.s.processRx e.gattMtu seg now with
@@ -599,7 +601,8 @@ theorem rx_data_effect {e e' : End} {seg : List Nat} {now : Nat}
     obtain ⟨a1, a2, _⟩ := accepted_stamps hr
     refine ⟨a1, a2, ?_⟩
     show (ackOf seg = none ∧ s'.send = e.s.send) ∨ (s'.send.level = e.s.send.windowSize ∧ s'.send.sentAt = none) ∨
-      s'.send.sentAt = some now
+      (s'.send.sentAt = some now ∧ ∃ a, ackOf seg = some a ∧ e.s.send.lastSent ≠ a ∧
+        s'.send.level = e.s.send.windowSize - wrapSub e.s.send.lastSent a)
     unfold Session.processRxData at hr
     split at hr
     · cases hr
@@ -611,59 +614,63 @@ theorem rx_data_effect {e e' : End} {seg : List Nat} {now : Nat}
           have := Except.ok.inj hr
           rw [← this]
           show (ackOf seg = none ∧ w = e.s.send) ∨ (w.level = e.s.send.windowSize ∧ w.sentAt = none) ∨
-            w.sentAt = some now
+            (w.sentAt = some now ∧ ∃ a, ackOf seg = some a ∧ e.s.send.lastSent ≠ a ∧
+              w.level = e.s.send.windowSize - wrapSub e.s.send.lastSent a)
           unfold SendWindow.acceptIncoming at hw
           split at hw
           · rename_i hga
             left
             refine ⟨?_, (Except.ok.inj hw).symm⟩
             simp only [ackOf, hdec, hhs, Bool.false_eq_true, if_false, hga]
-          · split at hw
+          · rename_i a hga
+            have hao : ackOf seg = some a := by
+              simp only [ackOf, hdec, hhs, Bool.false_eq_true, if_false, hga]
+            split at hw
             · right; left
               have := Except.ok.inj hw; rw [← this]; exact ⟨rfl, rfl⟩
-            · split at hw
-              · cases hw
-              · right; right
+            · rename_i hne
+              cases hc : csub e.s.send.windowSize (wrapSub e.s.send.lastSent a)
+                  "send window: window_size - unacknowledged" with
+              | error f => rw [hc] at hw; cases hw
+              | ok lv =>
+                rw [hc] at hw
+                right; right
                 have := Except.ok.inj hw; rw [← this]
-
-/-- the state in which the idle timeout of `x` may fire although both ends are alive: `x` counts
-(at most) one segment as unacknowledged that the peer does not hold as "to be acknowledged" - the
-handshake response, which an rs-matter initiator acknowledges only together with a later segment of
-the responder -, nothing travels towards the peer and no acknowledgement travels back -/
-def Slack (W : Nat) (l : LMon) (x : Side) : Prop :=
-  W ≤ (l.get x).e.s.send.level + 1 ∧ (l.get x.other).e.s.recv.ackLevel = 0 ∧ l.inq x.other = [] ∧
-    NoAck (l.inq x)
+                refine ⟨rfl, a, hao, hne, ?_⟩
+                unfold csub at hc
+                split at hc
+                · exact (Except.ok.inj hc).symm
+                · cases hc
 
 /-- **time-stamp invariant of the direction `x → x.other`** (on top of `Sync`) -/
 structure TDir (W : Nat) (l : LMon) (x : Side) : Prop where
-  /-- while something is unacknowledged the idle timer runs -/
+  /-- while something is unacknowledged the idle timer runs ... -/
   j1 : (l.get x).e.s.send.level < W → (l.get x).e.s.send.sentAt.isSome = true
+  /-- ... and only then -/
+  j1c : (l.get x).e.s.send.sentAt.isSome = true → (l.get x).e.s.send.level < W
   t0 : ∀ r, (l.get x).e.s.recv.receivedAt = some r → r ≤ l.now
   /-- segments in flight were sent at this very instant (time advances only when the queues are empty) -/
   t1 : l.inq x.other ≠ [] → ∀ s, (l.get x).e.s.send.sentAt = some s → s = l.now
   /-- the peer's acknowledgement timer started no later than our idle timer -/
   t2 : 0 < (l.get x.other).e.s.recv.ackLevel → ∀ r s, (l.get x.other).e.s.recv.receivedAt = some r →
     (l.get x).e.s.send.sentAt = some s → r ≤ s
-  /-- **the idle timer has not expired**, or the direction is in the `Slack` state -/
-  main : ∀ s, (l.get x).e.s.send.sentAt = some s → l.now ≤ s + connIdleTimeoutSecs ∨ Slack W l x
+  /-- **the idle timer has not expired** -/
+  main : ∀ s, (l.get x).e.s.send.sentAt = some s → l.now ≤ s + connIdleTimeoutSecs
 
-/-- what `TDir` / `Slack` look at -/
+/-- what `TDir` looks at -/
 structure SameTimes (l l' : LMon) : Prop where
   snd : ∀ z, (l'.get z).e.s.send = (l.get z).e.s.send
   rat : ∀ z, (l'.get z).e.s.recv.receivedAt = (l.get z).e.s.recv.receivedAt
   alv : ∀ z, (l'.get z).e.s.recv.ackLevel = (l.get z).e.s.recv.ackLevel
   inq : ∀ z, l'.inq z = l.inq z
 
-theorem slack_congr {W : Nat} {l l' : LMon} (h : SameTimes l l') (x : Side) (hs : Slack W l x) : Slack W l' x := by
-  unfold Slack at hs ⊢
-  rw [h.snd, h.alv, h.inq, h.inq]; exact hs
-
 theorem tdir_congr {W : Nat} {l l' : LMon} (h : SameTimes l l') (hn : l.now ≤ l'.now)
     (hq : l'.now = l.now ∨ ∀ z, l.inq z = []) (x : Side)
-    (hmain : ∀ s, (l.get x).e.s.send.sentAt = some s → l'.now ≤ s + connIdleTimeoutSecs ∨ Slack W l x)
+    (hmain : ∀ s, (l.get x).e.s.send.sentAt = some s → l'.now ≤ s + connIdleTimeoutSecs)
     (ht : TDir W l x) : TDir W l' x := by
-  refine ⟨?_, ?_, ?_, ?_, ?_⟩
+  refine ⟨?_, ?_, ?_, ?_, ?_, ?_⟩
   · rw [h.snd]; exact ht.j1
+  · rw [h.snd]; exact ht.j1c
   · intro r hr; rw [h.rat] at hr; exact Nat.le_trans (ht.t0 r hr) hn
   · rw [h.inq, h.snd]
     intro hne s hs
@@ -671,11 +678,7 @@ theorem tdir_congr {W : Nat} {l l' : LMon} (h : SameTimes l l') (hn : l.now ≤ 
     · rw [hq]; exact ht.t1 hne s hs
     · exact absurd (hq _) hne
   · rw [h.alv, h.rat, h.snd]; exact ht.t2
-  · rw [h.snd]
-    intro s hs
-    rcases hmain s hs with h1 | h1
-    · exact .inl h1
-    · exact .inr (slack_congr h x h1)
+  · rw [h.snd]; exact hmain
 
 /-- the network and both ends have caught up: nothing travels, nothing waits to be fetched, and
 neither pump has anything to emit at the current instant -/
@@ -690,61 +693,58 @@ theorem Quiescent.inq {l : LMon} (h : Quiescent l) (z : Side) : l.inq z = [] := 
 theorem noAck_nil : NoAck [] := fun _ h => absurd h List.not_mem_nil
 
 /-- **The tick step**: in a quiescent synchronised state (window ≥ 2) every running idle timer has
-at least 15 s left - the peer's acknowledgement is pending and its 15 s timer, which started no
-later, has not fired - unless the direction is in the `Slack` state. -/
+at least 15 s left: the peer holds all our unacknowledged segments for acknowledgement
+(`Tight`: nothing travels, so `window − level = ack_level` of the peer), its acknowledgement is
+pending and its 15 s timer, which started no later than our idle timer, has not fired. -/
 theorem tick_main {W M : Nat} {l : LMon} (hs : Sync W M l) (hw : 2 ≤ W) (hq : Quiescent l) (x : Side)
     (ht : TDir W l x) (s : Nat) (hsent : (l.get x).e.s.send.sentAt = some s) :
-    l.now + 15 ≤ s + connIdleTimeoutSecs ∨ Slack W l x := by
+    l.now + 15 ≤ s + connIdleTimeoutSecs := by
   have d := hs.dir x
   have d2 := hs.dir x.other
   simp only [other_other] at d2
   rw [hq.inq, hq.inq] at d d2
-  have hacks := d.acks
   have htight := d.tight
-  simp only [AckChain, Tight, lastAck, List.length_nil, Nat.sub_zero] at hacks htight
-  by_cases hal : (l.get x.other).e.s.recv.ackLevel = 0
-  · right
-    exact ⟨by omega, hal, hq.inq _, by rw [hq.inq]; exact noAck_nil⟩
-  · left
-    have hal' : 0 < (l.get x.other).e.s.recv.ackLevel := by omega
-    obtain ⟨hmc, ey, hpoll⟩ := hq.2.2 x.other
-    have hpa := pendingAck_some hal' hmc
-    have hnp := (hs.st x.other).pend
-    by_cases hly : 1 ≤ (l.get x.other).e.s.send.level
-    · -- the peer could send its acknowledgement, and does not: its timer has not fired
-      have hab : (l.get x.other).e.s.ackable = true :=
-        ackable_iff.mpr ⟨hnp, by rw [hpa]; rfl, hly⟩
-      rcases poll_ackable hab hpoll with ⟨_, _, hnd⟩ | ⟨hne, _⟩
-      · obtain ⟨r, hr⟩ := Option.isSome_iff_exists.mp (d.stamp hal')
-        have hrs := ht.t2 hal' r s hr hsent
-        unfold Session.isAckDue at hnd
-        simp only [hpa, Option.isSome_some, Bool.true_and, hr, Bool.or_eq_false_iff,
-          decide_eq_false_iff_not, ackTimeoutSecs_eq] at hnd
-        simp only [connIdleTimeoutSecs_eq]
-        have hnd2 : ¬ (r + 15 ≤ l.now) := of_decide_eq_false hnd.2
+  simp only [Tight, lastAck, List.length_nil, Nat.sub_zero] at htight
+  have hlt := ht.j1c (by rw [hsent]; rfl)
+  have hal' : 0 < (l.get x.other).e.s.recv.ackLevel := by omega
+  obtain ⟨hmc, ey, hpoll⟩ := hq.2.2 x.other
+  have hpa := pendingAck_some hal' hmc
+  have hnp := (hs.st x.other).pend
+  by_cases hly : 1 ≤ (l.get x.other).e.s.send.level
+  · -- the peer could send its acknowledgement, and does not: its timer has not fired
+    have hab : (l.get x.other).e.s.ackable = true :=
+      ackable_iff.mpr ⟨hnp, by rw [hpa]; rfl, hly⟩
+    rcases poll_ackable hab hpoll with ⟨_, _, hnd⟩ | ⟨hne, _⟩
+    · obtain ⟨r, hr⟩ := Option.isSome_iff_exists.mp (d.stamp hal')
+      have hrs := ht.t2 hal' r s hr hsent
+      unfold Session.isAckDue at hnd
+      simp only [hpa, Option.isSome_some, Bool.true_and, hr, Bool.or_eq_false_iff,
+        decide_eq_false_iff_not, ackTimeoutSecs_eq] at hnd
+      simp only [connIdleTimeoutSecs_eq]
+      have hnd2 : ¬ (r + 15 ≤ l.now) := of_decide_eq_false hnd.2
+      omega
+    · exact absurd rfl hne
+  · -- the peer's send window is exhausted: then we owe it an acknowledgement that is due at once
+    exfalso
+    have hly0 : (l.get x.other).e.s.send.level = 0 := by omega
+    have ht2 := d2.tight
+    simp only [Tight, lastAck, List.length_nil, Nat.sub_zero] at ht2
+    have hsum := d2.sum
+    obtain ⟨hmcx, ex, hpollx⟩ := hq.2.2 x
+    have halx : 0 < (l.get x).e.s.recv.ackLevel := by omega
+    have hpax := pendingAck_some halx hmcx
+    by_cases hlx : 1 ≤ (l.get x).e.s.send.level
+    · have habx : (l.get x).e.s.ackable = true :=
+        ackable_iff.mpr ⟨(hs.st x).pend, by rw [hpax]; rfl, hlx⟩
+      rcases poll_ackable habx hpollx with ⟨_, _, hnd⟩ | ⟨hne, _⟩
+      · unfold Session.isAckDue at hnd
+        simp only [hpax, Option.isSome_some, Bool.true_and, Bool.or_eq_false_iff,
+          decide_eq_false_iff_not] at hnd
         omega
       · exact absurd rfl hne
-    · -- the peer's send window is exhausted: then we owe it an acknowledgement that is due at once
-      exfalso
-      have hly0 : (l.get x.other).e.s.send.level = 0 := by omega
-      have ht2 := d2.tight
-      simp only [Tight, lastAck, List.length_nil, Nat.sub_zero] at ht2
-      have hsum := d2.sum
-      obtain ⟨hmcx, ex, hpollx⟩ := hq.2.2 x
-      have halx : 0 < (l.get x).e.s.recv.ackLevel := by omega
-      have hpax := pendingAck_some halx hmcx
-      by_cases hlx : 1 ≤ (l.get x).e.s.send.level
-      · have habx : (l.get x).e.s.ackable = true :=
-          ackable_iff.mpr ⟨(hs.st x).pend, by rw [hpax]; rfl, hlx⟩
-        rcases poll_ackable habx hpollx with ⟨_, _, hnd⟩ | ⟨hne, _⟩
-        · unfold Session.isAckDue at hnd
-          simp only [hpax, Option.isSome_some, Bool.true_and, Bool.or_eq_false_iff,
-            decide_eq_false_iff_not] at hnd
-          omega
-        · exact absurd rfl hne
-      · apply hs.nodead
-        rw [dead_iff l x]
-        refine ⟨by omega, hly0, ?_, ?_⟩ <;> (rw [hq.inq]; exact noAck_nil)
+    · apply hs.nodead
+      rw [dead_iff l x]
+      refine ⟨by omega, hly0, ?_, ?_⟩ <;> (rw [hq.inq]; exact noAck_nil)
 
 theorem sameTimes_mk {l l' : LMon} (x : Side) (h1 : (l'.get x).e.s.send = (l.get x).e.s.send)
     (h2 : (l'.get x).e.s.recv.receivedAt = (l.get x).e.s.recv.receivedAt)
@@ -796,12 +796,11 @@ theorem tdir_step {W M : Nat} {l l' : LMon} (hl : LInv l) (hs : Sync W M l) (hw 
       refine ⟨?_, ?_, ?_, ?_⟩ <;> intro z <;> cases z <;> rfl
     intro x
     refine tdir_congr hst (Nat.le_add_right _ _) (.inr hq.inq) x (fun s hsent => ?_) (ht x)
-    rcases tick_main hs hw hq x (ht x) s hsent with h | h
-    · left; show l.now + n ≤ _; omega
-    · exact .inr h
+    have h := tick_main hs hw hq x (ht x) s hsent
+    show l.now + n ≤ _; omega
   | poll z e' seg hp hx ho hq1 hq2 hn =>
     obtain ⟨hm, _⟩ := hl.get z
-    rcases endOutgoing_sync hm.e (hs.st z).pend (hs.ses z).1 (hs.st z).tx l.now with ⟨h0, _⟩ | ⟨h, p, e2, h1, _, hok, hga, he2, _, _⟩
+    rcases endOutgoing_sync hm.e (hs.st z).pend (hs.ses z).1 (hs.st z).tx l.now with ⟨h0, _⟩ | ⟨h, p, e2, h1, hlv1, hok, hga, he2, _, _⟩
     · rw [h0] at hp
       have hh := Prod.mk.inj (Except.ok.inj hp)
       have hq2' : l'.inq z.other = l.inq z.other := by rw [hq2, ← hh.2]; rfl
@@ -813,17 +812,13 @@ theorem tdir_step {W M : Nat} {l l' : LMon} (hl : LInv l) (hs : Sync W M l) (hw 
       have hh := Prod.mk.inj (Except.ok.inj hp)
       have hs' : (l'.get z).e.s = (l.get z).e.s.afterTx l.now := by rw [hx, ← hh.1]; exact he2
       obtain ⟨a1, a2, a3, a4⟩ := afterTx_times (l.get z).e.s l.now
-      have hne : seg ≠ [] := by
-        rw [← hh.2]; intro h0
-        have := (encode_length_le h).2
-        have h3 : (h.encode ++ p).length = 0 := by rw [h0]; rfl
-        simp only [List.length_append] at h3; omega
-      have hq2' : l'.inq z.other = l.inq z.other ++ [seg] := by rw [hq2]; simp [hne]
+      have hlvW : (l.get z).e.s.send.level ≤ W := (hs.dir z).lvl
       intro x
       rcases side_cases x z with rfl | rfl
       · -- the direction of the sender
-        refine ⟨?_, ?_, ?_, ?_, ?_⟩
+        refine ⟨?_, ?_, ?_, ?_, ?_, ?_⟩
         · intro _; rw [hs', a1]; rfl
+        · intro _; rw [hs', afterTx_level]; omega
         · intro r hr; rw [hs', a2] at hr; rw [hn]; exact (ht x).t0 r hr
         · intro _ s hsent; rw [hs', a1] at hsent; rw [hn]; exact (Option.some.inj hsent).symm
         · rw [ho]
@@ -834,14 +829,15 @@ theorem tdir_step {W M : Nat} {l l' : LMon} (hl : LInv l) (hs : Sync W M l) (hw 
           omega
         · intro s hsent
           rw [hs', a1] at hsent
-          left; rw [hn]
+          rw [hn]
           have := Option.some.inj hsent
           omega
       · -- the direction of the peer (its acknowledgements may have gone out)
         have hoo : l'.get z.other.other = l'.get z := by rw [other_other]
         have hoq : l'.inq z.other.other = l.inq z.other.other := by rw [other_other]; exact hq1
-        refine ⟨?_, ?_, ?_, ?_, ?_⟩
+        refine ⟨?_, ?_, ?_, ?_, ?_, ?_⟩
         · rw [ho]; exact (ht z.other).j1
+        · rw [ho]; exact (ht z.other).j1c
         · rw [ho, hn]; exact (ht z.other).t0
         · rw [ho, hoq, hn]; exact (ht z.other).t1
         · rw [ho, hoo, hs', a2]
@@ -852,20 +848,7 @@ theorem tdir_step {W M : Nat} {l l' : LMon} (hl : LInv l) (hs : Sync W M l) (hw 
             rw [other_other] at this
             exact this hal
           · rw [a3] at hal; cases hal
-        · rw [ho, hn]
-          intro s hsent
-          rcases (ht z.other).main s hsent with hm1 | hm1
-          · exact .inl hm1
-          · right
-            obtain ⟨s1, s2, s3, s4⟩ := hm1
-            rw [other_other] at s2 s3
-            refine ⟨by rw [ho]; exact s1, ?_, ?_, ?_⟩
-            · rw [hoo, hs']; exact a4 s2
-            · rw [hoq, other_other]; exact s3
-            · rw [hq2']
-              refine noAck_snoc.mpr ⟨s4, ?_⟩
-              rw [← hh.2, ackOf_encode hok.canon, hga]
-              exact pendingAck_none_of_zero s2
+        · rw [ho, hn]; exact (ht z.other).main
   | deliver z seg rest e' hq hp hx ho hq1 hq2 hn =>
     have hnoq := (hs.st z.other).noHs
     rw [other_other, hq] at hnoq
@@ -873,26 +856,49 @@ theorem tdir_step {W M : Nat} {l l' : LMon} (hl : LInv l) (hs : Sync W M l) (hw 
     obtain ⟨r1, r2, r3⟩ := rx_data_effect hno hp
     have hws : (l.get z).e.s.send.windowSize = W := by
       have := (hl.get z).1.e.s.sendWs; rw [this]; exact (hs.ses z).2.1
+    -- an acknowledgement that is not for our last segment leaves something unacknowledged
+    have hpart : ∀ a, ackOf seg = some a → (l.get z).e.s.send.lastSent ≠ a →
+        W - wrapSub (l.get z).e.s.send.lastSent a < W := by
+      intro a ha hne
+      have hb : Bytes seg := hl.inq z seg (by rw [hq]; simp)
+      obtain ⟨h, p, hdec, hhs⟩ := hno
+      have c := decodeHdr_clean seg hb
+      rw [hdec] at c
+      simp only [Clean] at c
+      have ha256 : a < 256 := by
+        simp only [ackOf, hdec, hhs, Bool.false_eq_true, if_false, Hdr.getAck] at ha
+        split at ha
+        · have := Option.some.inj ha; rw [← this]; exact c.1.ack
+        · cases ha
+      have hl256 := (hl.get z).1.e.s.lastLt
+      have hW1 := hs.par.w1
+      unfold wrapSub
+      omega
     intro x
     rcases side_cases x z with rfl | rfl
     · -- the direction of the receiver's own send window (an acknowledgement may have arrived)
-      refine ⟨?_, ?_, ?_, ?_, ?_⟩
+      refine ⟨?_, ?_, ?_, ?_, ?_, ?_⟩
       · rw [hx]
-        rcases r3 with ⟨_, r3⟩ | ⟨r3, _⟩ | r3
+        rcases r3 with ⟨_, r3⟩ | ⟨r3, _⟩ | ⟨r3, _⟩
         · rw [r3]; exact (ht x).j1
         · intro hlt; rw [r3, hws] at hlt; omega
         · intro _; rw [r3]; rfl
+      · rw [hx]
+        rcases r3 with ⟨_, r3⟩ | ⟨_, r3⟩ | ⟨_, a, ha, hne, hlv⟩
+        · rw [r3]; exact (ht x).j1c
+        · intro hsome; rw [r3] at hsome; cases hsome
+        · intro _; rw [hlv, hws]; exact hpart a ha hne
       · intro r hr; rw [hx, r1] at hr; rw [hn]
         have := Option.some.inj hr; omega
       · rw [hq2, hx, hn]
         intro hne s hsent
-        rcases r3 with ⟨_, r3⟩ | ⟨_, r3⟩ | r3
+        rcases r3 with ⟨_, r3⟩ | ⟨_, r3⟩ | ⟨r3, _⟩
         · rw [r3] at hsent; exact (ht x).t1 hne s hsent
         · rw [r3] at hsent; cases hsent
         · rw [r3] at hsent; exact (Option.some.inj hsent).symm
       · rw [ho, hx]
         intro hal r s hr hsent
-        rcases r3 with ⟨_, r3⟩ | ⟨_, r3⟩ | r3
+        rcases r3 with ⟨_, r3⟩ | ⟨_, r3⟩ | ⟨r3, _⟩
         · rw [r3] at hsent; exact (ht x).t2 hal r s hr hsent
         · rw [r3] at hsent; cases hsent
         · rw [r3] at hsent
@@ -901,26 +907,18 @@ theorem tdir_step {W M : Nat} {l l' : LMon} (hl : LInv l) (hs : Sync W M l) (hw 
           omega
       · rw [hx, hn]
         intro s hsent
-        rcases r3 with ⟨r3a, r3⟩ | ⟨_, r3⟩ | r3
-        · rw [r3] at hsent
-          rcases (ht x).main s hsent with hm1 | hm1
-          · exact .inl hm1
-          · right
-            obtain ⟨s1, s2, s3, s4⟩ := hm1
-            refine ⟨by rw [hx, r3]; exact s1, by rw [ho]; exact s2, by rw [hq2]; exact s3, ?_⟩
-            rw [hq1]; rw [hq] at s4
-            exact (noAck_cons.mp s4).2
+        rcases r3 with ⟨_, r3⟩ | ⟨_, r3⟩ | ⟨r3, _⟩
+        · rw [r3] at hsent; exact (ht x).main s hsent
         · rw [r3] at hsent; cases hsent
         · rw [r3] at hsent
-          left
           have := Option.some.inj hsent
           omega
     · -- the direction of the sender of the segment
       have hoo : l'.get z.other.other = l'.get z := by rw [other_other]
-      have hoq : l'.inq z.other.other = rest := by rw [other_other]; exact hq1
       have hne : l.inq z.other.other ≠ [] := by rw [other_other, hq]; simp
-      refine ⟨?_, ?_, ?_, ?_, ?_⟩
+      refine ⟨?_, ?_, ?_, ?_, ?_, ?_⟩
       · rw [ho]; exact (ht z.other).j1
+      · rw [ho]; exact (ht z.other).j1c
       · rw [ho, hn]; exact (ht z.other).t0
       · rw [ho, hn]
         intro _ s hsent
@@ -930,11 +928,7 @@ theorem tdir_step {W M : Nat} {l l' : LMon} (hl : LInv l) (hs : Sync W M l) (hw 
         have h1 := (ht z.other).t1 hne s hsent
         have := Option.some.inj hr
         omega
-      · rw [ho, hn]
-        intro s hsent
-        rcases (ht z.other).main s hsent with hm1 | hm1
-        · exact .inl hm1
-        · exact absurd hm1.2.2.1 hne
+      · rw [ho, hn]; exact (ht z.other).main
 
 /-- the schedule lets the clock advance only in quiescent states, and by at most 15 s at a time:
 delivery, fetching and the pumps are fast compared with the 15 s / 30 s timers -/
@@ -959,18 +953,16 @@ theorem timed_step1 {W M : Nat} {l : LMon} (h : Timed W M l) (hw : 2 ≤ W) {op 
     rw [step1_ok hstep]
     exact tdir_step h.linv h.sync hw h.td hstep htick
 
-/-- **The idle timeout fires only in the `Slack` state.** -/
-theorem timeout_slack {W M : Nat} {l : LMon} (h : Timed W M l) (x : Side)
-    (hto : (l.get x).e.s.isTimedOut l.now connIdleTimeoutSecs = true) : Slack W l x := by
-  unfold Session.isTimedOut at hto
+/-- **The idle timeout does not fire.** -/
+theorem timeout_never {W M : Nat} {l : LMon} (h : Timed W M l) (x : Side) :
+    (l.get x).e.s.isTimedOut l.now connIdleTimeoutSecs = false := by
+  unfold Session.isTimedOut
   cases hs : (l.get x).e.s.send.sentAt with
-  | none => rw [hs] at hto; cases hto
+  | none => rfl
   | some t =>
-    rw [hs] at hto
-    simp only [decide_eq_true_eq] at hto
-    rcases (h.td x).main t hs with h1 | h1
-    · omega
-    · exact h1
+    have := (h.td x).main t hs
+    simp only [decide_eq_false_iff_not]
+    omega
 
 /-! ## The link with the idle timeout as an operation -/
 
@@ -1060,5 +1052,85 @@ theorem timely_of_B : ∀ (ops : List Op) (l : LMon), timelyB l ops = true → T
     have h1 := h.1
     simp only [Bool.and_eq_true, decide_eq_true_eq] at h1
     exact ⟨h1.1, quiescent_of_B h1.2⟩
+
+/-! ## The link right after an instantaneous handshake (every GATT MTU / negotiation mode) -/
+
+def hsB (rb : Bool) (ga gb : Option Nat) : Session :=
+  { (Session.fresh false rb).setup 4 (negMtu ga gb rb) (negWin ga gb rb) 0 with
+    send := { windowSize := negWin ga gb rb, level := negWin ga gb rb - 1, lastSent := 0, sentAt := some 0 },
+    handshakePending := false }
+
+def fresh2 (ra rb : Bool) (ga gb : Option Nat) : LMon :=
+  { a := { e := { s := Session.fresh true ra, gattMtu := ga } }, b := { e := { s := Session.fresh false rb, gattMtu := gb } } }
+def hs1 (ra rb : Bool) (ga gb : Option Nat) : LMon :=
+  { a := { e := { s := initSent ra, gattMtu := ga } }, b := { e := { s := Session.fresh false rb, gattMtu := gb } },
+    qab := [reqBytes ga] }
+def hs2 (ra rb : Bool) (ga gb : Option Nat) : LMon :=
+  { a := { e := { s := initSent ra, gattMtu := ga } },
+    b := { e := { s := (Session.fresh false rb).setup 4 (negMtu ga gb rb) (negWin ga gb rb) 0, gattMtu := gb } } }
+def hs3 (ra rb : Bool) (ga gb : Option Nat) : LMon :=
+  { a := { e := { s := initSent ra, gattMtu := ga } }, b := { e := { s := hsB rb ga gb, gattMtu := gb } },
+    qba := [respBytes (negMtu ga gb rb) (negWin ga gb rb)] }
+/-- the link right after an instantaneous handshake between two fresh ends -/
+def hsDone (ra rb : Bool) (ga gb : Option Nat) : LMon :=
+  { a := { e := { s := (initSent ra).setup 4 (negMtu ga gb rb) (negWin ga gb rb) 0, gattMtu := ga } },
+    b := { e := { s := hsB rb ga gb, gattMtu := gb } } }
+
+theorem hs_step1 (ra rb : Bool) (ga gb : Option Nat) :
+    (fresh2 ra rb ga gb).step (.poll .a) = .ok (hs1 ra rb ga gb, .tx (reqBytes ga)) := by
+  have hout : (fresh2 ra rb ga gb).a.e.processOutgoing 0 = .ok ({ s := initSent ra, gattMtu := ga }, reqBytes ga) := by
+    unfold End.processOutgoing
+    simp only [fresh2, prepTxHandshake_init, reqBytes, hsLen, if_true]
+  have hlen : (reqBytes ga).length > 0 := hsLen _
+  simp only [LMon.step, LMon.get, Mon.step]
+  rw [show (fresh2 ra rb ga gb).now = 0 from rfl, hout]
+  simp only [hlen, if_true]
+  simp only [reqBytes, feedSeg_hs]
+  rfl
+
+theorem hs_step2 (ra rb : Bool) (ga gb : Option Nat) :
+    (hs1 ra rb ga gb).step (.deliver .b) = .ok (hs2 ra rb ga gb, .delivered) := by
+  have hin : (hs1 ra rb ga gb).b.e.processIncoming (reqBytes ga) 0 =
+      .ok { s := (Session.fresh false rb).setup 4 (negMtu ga gb rb) (negWin ga gb rb) 0, gattMtu := gb } := by
+    unfold End.processIncoming
+    simp only [hs1, processRx_req]
+  simp only [LMon.step, LMon.inq, LMon.get, Mon.step]
+  rw [show (hs1 ra rb ga gb).qab = [reqBytes ga] from rfl]
+  simp only
+  rw [show (hs1 ra rb ga gb).now = 0 from rfl, hin]
+  simp only [reqBytes, ghostRx_hs]
+  rfl
+
+theorem hs_step3 (ra rb : Bool) (ga gb : Option Nat) :
+    (hs2 ra rb ga gb).step (.poll .b) = .ok (hs3 ra rb ga gb, .tx (respBytes (negMtu ga gb rb) (negWin ga gb rb))) := by
+  have hpar := negPar ga gb rb
+  have hout : (hs2 ra rb ga gb).b.e.processOutgoing 0 = .ok ({ s := hsB rb ga gb, gattMtu := gb }, respBytes (negMtu ga gb rb) (negWin ga gb rb)) := by
+    have h1 := prepTxHandshake_resp rb gb (negMtu ga gb rb) (negWin ga gb rb) 0 hpar.w1
+    unfold End.processOutgoing
+    simp only [hs2]
+    rw [h1]
+    simp only [respBytes, hsLen, if_true]
+    rfl
+  have hlen : (respBytes (negMtu ga gb rb) (negWin ga gb rb)).length > 0 := hsLen _
+  simp only [LMon.step, LMon.get, Mon.step]
+  rw [show (hs2 ra rb ga gb).now = 0 from rfl, hout]
+  simp only [hlen, if_true]
+  simp only [respBytes, feedSeg_hs]
+  rfl
+
+theorem hs_step4 (ra rb : Bool) (ga gb : Option Nat) :
+    (hs3 ra rb ga gb).step (.deliver .a) = .ok (hsDone ra rb ga gb, .delivered) := by
+  have hpar := negPar ga gb rb
+  have hin : (hs3 ra rb ga gb).a.e.processIncoming (respBytes (negMtu ga gb rb) (negWin ga gb rb)) 0 =
+      .ok { s := (initSent ra).setup 4 (negMtu ga gb rb) (negWin ga gb rb) 0, gattMtu := ga } := by
+    unfold End.processIncoming
+    simp only [hs3, processRx_resp ra _ _ _ _ hpar]
+  simp only [LMon.step, LMon.inq, LMon.get, Mon.step]
+  rw [show (hs3 ra rb ga gb).qba = [respBytes (negMtu ga gb rb) (negWin ga gb rb)] from rfl]
+  simp only
+  rw [show (hs3 ra rb ga gb).now = 0 from rfl, hin]
+  simp only [respBytes, ghostRx_hs]
+  rfl
+
 
 end Btp
